@@ -4,6 +4,8 @@ import (
 	"context"
 	"fmt"
 	"net/http"
+	"path"
+	"strings"
 
 	"github.com/rs/zerolog/log"
 	"github.com/semafind/semadb/httpapi/utils"
@@ -31,8 +33,10 @@ func AppHeaderMiddleware(userPlans map[string]models.UserPlan, next http.Handler
 			return
 		}
 		// The user id names the directory of the user's shards, "." and ".."
-		// would name the directory of all users and its parent.
-		if appHeaders.UserId == "." || appHeaders.UserId == ".." {
+		// would name the directory of all users and its parent. The same goes
+		// for an id with such an element, an empty element or a leading or
+		// trailing slash: it would name the directory of another user id.
+		if appHeaders.UserId == "." || appHeaders.UserId == ".." || strings.HasPrefix(appHeaders.UserId, "../") || path.Clean(appHeaders.UserId) != appHeaders.UserId || path.IsAbs(appHeaders.UserId) {
 			utils.Encode(w, http.StatusBadRequest, map[string]string{"error": "invalid X-User-Id header"})
 			return
 		}
